@@ -1109,6 +1109,62 @@ def unroll_reflective_loops(tree):
     return log
 
 
+_REFC = None
+
+
+def inline_new_constants(tree, modname):
+    """A module-level `NAME = <None | True | False | 0>` bound once, never re-bound anywhere in the unit and not present in
+    the reference tree (a named sentinel or limit introduced by the change under analysis) is replaced by its value in every
+    function of the unit: `x is _UNDISCOVERED` reads `x is None` again."""
+    global _REFC
+    if _REFC is None:
+        p = os.path.join(os.path.dirname(os.path.abspath(__file__)), "reference_constants.json")
+        try:
+            with open(p) as fh:
+                _REFC = json.load(fh)
+        except OSError:
+            _REFC = {}
+    known = set(_REFC.get(modname, ())) if modname in _REFC else None
+    if known is None:
+        return []
+    cand = {}
+    for st in tree.body:
+        # (sentinels only - None, True, False, 0: a named number such as a shift width or a limit stays a name, rules that
+        # evaluate constants resolve those themselves)
+        if isinstance(st, ast.Assign) and len(st.targets) == 1 and isinstance(st.targets[0], ast.Name) and isinstance(st.value, ast.Constant) and (
+                st.value.value is None or isinstance(st.value.value, bool) or (isinstance(st.value.value, int) and st.value.value == 0)):
+            nm = st.targets[0].id
+            cand[nm] = None if nm in cand else st.value
+    stores = {}
+    for n in ast.walk(tree):
+        if isinstance(n, ast.Name) and isinstance(n.ctx, (ast.Store, ast.Del)):
+            stores[n.id] = stores.get(n.id, 0) + 1
+        if isinstance(n, (ast.Global, ast.Nonlocal)):
+            for nm in n.names:
+                stores[nm] = stores.get(nm, 0) + 2
+        if isinstance(n, ast.arg):
+            stores[n.arg] = stores.get(n.arg, 0) + 2
+    cand = {k: v for k, v in cand.items() if v is not None and k not in known and stores.get(k) == 1}
+    if not cand:
+        return []
+    log = []
+
+    class Sub(ast.NodeTransformer):
+        def visit_Name(self, node):
+            if isinstance(node.ctx, ast.Load) and node.id in cand:
+                hit.add(node.id)
+                return ast.copy_location(ast.Constant(value=cand[node.id].value), node)
+            return node
+    hit = set()
+    for fn in [n for n in ast.walk(tree) if isinstance(n, FUNC)]:
+        Sub().visit(fn)
+    for k in sorted(hit):
+        log.append("new module constant %s replaced by its value %r" % (k, cand[k].value))
+    if log:
+        ast.fix_missing_locations(tree)
+    return log
+
+
 def drain_loops_to_for(tree):
     """`q = deque(E)` (or `list(E)`) followed by `while q: v = q.popleft()` (or `q.pop(0)`) `; BODY`, `q` used for nothing
     else: the loop visits the elements of the snapshot in order - `for v in list(E): BODY`."""
